@@ -409,24 +409,30 @@ def rule_literal(repo: Repo) -> RuleResult:
                     isinstance(n.value, ast.Constant) and n.value.value is True:
                 for t in n.targets:
                     forced.append(frozenset(p.trace(t.value)))
-        live = {"in": set(), "not in": set()}
+        # the text that is looked up in the state, per polarity of the literal (whatever the spelling of the test: `t in s`, `t not in s`,
+        # `(t in s) is expected` with t chosen by the polarity)
+        n_live = 0
         for pos in (False, True):
             val = dict(cv)
             val["pos"] = pos
             sn = G.reach(val)
+            under = G.under(val, sn)
+            oks = []
             for kind, e in members.values():
-                if G.reaches_expr(val, e, seen=sn) and any(e is x for x in ast.walk(loop)):
-                    live[kind].add(id(e))
-        for kind, e in members.values():
-            if id(e) not in live[kind]:
-                continue
-            left = p.trace(e.left)
-            recv = {x[:-1] for x in left if x and x[-1] == "attr:untyped_representation"}
-            if kind == "in":
-                okpos = bool(recv) and recv <= elem
+                if not (G.reaches_expr(val, e, seen=sn) and any(e is x for x in ast.walk(loop))):
+                    continue
+                n_live += 1
+                left = p.trace(e.left, under=under)
+                recv = {x[:-1] for x in left if x and x[-1] == "attr:untyped_representation"}
+                if pos:
+                    oks.append(bool(recv) and recv <= elem)
+                else:
+                    oks.append(bool(recv) and all("call:copy" in x for x in recv) and any(frozenset(recv) == fz for fz in forced))
+            if pos:
+                okpos = bool(oks) and all(oks)
             else:
-                okneg = bool(recv) and all("call:copy" in x for x in recv) and any(frozenset(recv) == fz for fz in forced)
-        if not live["in"] and not live["not in"]:
+                okneg = bool(oks) and all(oks)
+        if not n_live:
             raise AnalysisError(f"{EVAL}: no membership test on the state is visible for a literal operand")
         if okpos and okneg:
             r.ok({"positive_branch_tests": "operand.untyped_representation", "negative_branch_tests": "text of the copy forced to is_positive=True"})
@@ -913,7 +919,9 @@ def rules(repo: Repo, tier: str) -> List[RuleResult]:
     return [rule_tables(repo), c12.rule_compare(repo), rule_translate(repo), rule_literal(repo), rule_foldid(repo), rule_foldarms(repo),
             rule_equality(repo), c06.rule_range(repo, "C02.range", "GroundedPrecondition.is_applicable"),
             c06.rule_conform(repo, "C02.conform", only_funcs=(EVAL,), floor=0),
-            rule_passthrough(repo), rule_groundall(repo), rule_keyerror(repo)] + _grounding_rules(repo)
+            rule_passthrough(repo), rule_groundall(repo), rule_keyerror(repo),
+            # the numeric conditions are evaluated on the values of THIS state: the walk that copies them into the tree reaches every leaf
+            c12.rule_leaf(repo).as_rule("C02.readstate"), c12.rule_missing(repo, "C02.missing")] + _grounding_rules(repo)
 
 
 def _grounding_rules(repo: Repo) -> List[RuleResult]:
